@@ -87,7 +87,7 @@ def run(ctx):
                 "a stream of many exact copies of few short prototypes with drop_stddev set, "
                 "equal/unequal lengths, list / matrix / 3-D containers) x k x seeds x initialisation (k-means++, "
                 "k-means++ with sample size, random) x drop_stddev x window/penalty x use_c x max_it/max_dba_it x "
-                "serial (and a few parallel, fit_fast) runs; every fit: keys 0..k-1, partition of all indices, k means, "
+                "serial (and a few parallel, fit_fast) runs, every third one on a model object that was fitted on other data before; every fit: keys 0..k-1, partition of all indices, k means, "
                 "each series in the cluster of a nearest mean (distances recomputed with the same options), "
                 "performed_it <= max_it + 1; the final assignment compared with the Lean nearest-mean model on the "
                 "rank-transformed distance table; non-trivial = at least 2 distinct series and k >= 2")
@@ -159,6 +159,18 @@ def run(ctx):
           with contextlib.redirect_stdout(io.StringIO()):
             model = KMeans(k=k, max_it=max_it, max_dba_it=max_dba_it, drop_stddev=drop, dists_options=dict(opts),
                            show_progress=False, **kw)
+            if it % 3 == 1 and mode == "serial":
+                # history: the same model object was fitted before, on other data (possibly of another size) with
+                # another seed; the fit checked below must not remember anything of it
+                other = [np.array(s, dtype=float) + float(rng.choice([0, 1, 5])) for s in data]
+                rng.shuffle(other)
+                other = other + other[:rng.choice([0, 0, 2])] if rng.random() < 0.5 else other[:max(k + 1, len(other) - 2)]
+                np.random.seed(seed + 1)
+                pyrandom.seed(seed + 1)
+                model.fit(other if cname.startswith("list") else np.array(other), use_parallel=False)
+                np.random.seed(seed)
+                pyrandom.seed(seed)
+                res.hit("refit_history")
             if mode == "fit_fast":
                 cl, nit = model.fit_fast(data)
             else:
